@@ -585,6 +585,14 @@ impl Runner {
             if let Op::EngineConfig { fee_pool: Some(fp), .. } = &step.op {
                 self.model.fee_pool_ref = Some(self.w.resolve(fp));
             }
+            if let Op::EngineConfig { insurance_fund: Some(x), .. } = &step.op {
+                // "the insurance fund" of every statement is the one the engine was last configured with
+                let a = self.w.resolve(x);
+                if a != self.w.addrs.insurance_fund {
+                    self.ev.count("engine_moved_to_other_insurance_fund");
+                    self.w.addrs.insurance_fund = a;
+                }
+            }
             match &step.op {
                 Op::AppendPrice { vamm, price, timestamp } => {
                     if *vamm < self.model.feed.len() {
